@@ -497,7 +497,7 @@ def run_matrix(tier, seed, only=None):
             owned = any(pid in owners.get(k, ()) for k in owners if base and json.loads(k).get("family") == json.loads(base).get("family")
                         and json.loads(k).get("consts") == json.loads(base).get("consts") and json.loads(k).get("mode") == json.loads(base).get("mode")
                         and json.loads(k).get("spec") == json.loads(base).get("spec") and json.loads(k).get("sweep") == json.loads(base).get("sweep"))
-            if (props & gate if not ex.get("trace") else pid in props) and owned:
+            if ((props & gate and widened_ok(pid, props, ex)) if not ex.get("trace") else pid in props) and owned:
                 mine.append(ex)
         if pid == "C06":
             mine.extend(ex for props, ex in fl)
@@ -725,6 +725,20 @@ GATES = {  # failure attributions that make a check for <pid> report a violation
 }
 
 
+def widened_ok(pid, props, ex):
+    """the widened gates of GATES apply only to the calls the property's statement is about"""
+    if pid in props:
+        return True
+    name = ((ex.get("transition") or {}).get("o") or {}).get("name", "")
+    if pid == "C19":       # "formatting never changes the container": only calls that render something
+        return name in ("fmt", "s_fmt", "cursor", "drain", "s_drain", "s_iter", "s_into_iter") or name == ""
+    if pid == "C16":       # bulk construction only
+        return name in ("from_iter", "from_array", "s_from_iter", "s_from_array", "s_extend") or name == ""
+    if pid == "C18":       # the unsafe fast paths only
+        return name in ("insert_unchecked", "disjoint") or name == ""
+    return True
+
+
 def known_sites(pid):
     try:
         kf = json.load(open(os.path.join(ROOT, "known_findings.json")))
@@ -757,7 +771,8 @@ def run_check(pid, tier, seed):
             if any(job_key(j) == jk for j in (jobs_for(other, tier) or [])):
                 return False
         return True
-    mine = [ex for props, ex in failures if (props & gate if not ex.get("trace") else (pid in props or orphan(props, ex)))]
+    mine = [ex for props, ex in failures
+            if ((props & gate and widened_ok(pid, props, ex)) if not ex.get("trace") else (pid in props or orphan(props, ex)))]
     # a recorded (not repaired) genuine defect is a finding, not an alarm to keep raising
     known = known_sites(pid)
     if known and mine:
